@@ -331,8 +331,12 @@ def _every_iteration(fa: FA, lp, ids) -> bool:
     """every iteration of the loop `lp` passes one of the CFG nodes `ids`, and the loop visits every element (no break / return)"""
     if not ids or any(isinstance(n, (ast.Break, ast.Return)) for st in lp.body for n in ast.walk(st)):
         return False
+    # an iteration may be skipped where the element itself is found to be missing (`if layer is None: continue`, `if layer:`):
+    # the operation is then still applied to every element that exists
+    var = lp.target.id if isinstance(lp.target, ast.Name) else None
+    missing = branch_filter(fa, lambda t, p: var is not None and ((t == var and not p) or (t == var + " is None" and p))) if var else None
     for h in fa.nodes(lp):
-        r = fa.cfg.reach([h], removed=ids, edge_ok=lambda s_, d_, l_, h=h: not (s_ == h and l_ == "F"), include_start=False)
+        r = fa.cfg.reach([h], removed=ids, edge_ok=lambda s_, d_, l_, h=h: not (s_ == h and l_ == "F") and (missing is None or missing(s_, d_, l_)), include_start=False)
         for i in r:
             nd = fa.cfg.node(i)
             if i == h or i == fa.cfg.exit or (nd.ast is not None and not fa.inside(nd.ast, lp)):
